@@ -134,94 +134,153 @@ func evalIntFunc(info *types.Info, list []ast.Stmt, env map[string]int64) (int64
 // literal, or a local initialised by a composite literal or by a call of another package function of the same
 // shape (parameters substituted by the argument texts), followed by assignments to its fields, and returned.
 func evalOptsFunc(info *types.Info, fns map[string]*ast.FuncDecl, fd *ast.FuncDecl, sub map[string]string, depth int) (map[string]string, string) {
-	if depth > 2 {
+	v, why := evalOptsValue(info, fns, fd, sub, depth)
+	if v == nil {
+		return nil, why
+	}
+	if !v.isStruct {
+		return nil, "the function returns a scalar"
+	}
+	return v.fields, ""
+}
+
+// optVal: a struct value (field -> expression text over the caller's parameters) or a scalar expression text.
+type optVal struct {
+	isStruct bool
+	fields   map[string]string
+	scalar   string
+}
+
+// evalOptsValue evaluates a straight-line function symbolically: locals hold struct values (composite literals,
+// `var x T`, results of package functions of the same kind, updated by `x.F = e`) or scalar expressions; every
+// expression is rendered over the function's parameters (sub maps parameter names to the caller's argument texts).
+func evalOptsValue(info *types.Info, fns map[string]*ast.FuncDecl, fd *ast.FuncDecl, sub map[string]string, depth int) (*optVal, string) {
+	if depth > 3 {
 		return nil, "helper chain too deep"
+	}
+	locals := map[string]*optVal{}
+	word := func(name string) *regexp.Regexp {
+		return regexp.MustCompile(`(^|[^A-Za-z0-9_.])` + regexp.QuoteMeta(name) + `($|[^A-Za-z0-9_])`)
 	}
 	render := func(e ast.Expr) string {
 		out := types.ExprString(e)
+		// fields of struct locals, then scalar locals, then parameters
+		for name, v := range locals {
+			if v.isStruct {
+				for f, fv := range v.fields {
+					out = regexp.MustCompile(`(^|[^A-Za-z0-9_.])`+regexp.QuoteMeta(name+"."+f)+`($|[^A-Za-z0-9_])`).ReplaceAllString(out, "${1}"+fv+"${2}")
+				}
+			}
+		}
+		for name, v := range locals {
+			if !v.isStruct {
+				out = word(name).ReplaceAllString(out, "${1}"+v.scalar+"${2}")
+			}
+		}
 		for from, to := range sub {
-			out = regexp.MustCompile(`(^|[^A-Za-z0-9_.])`+regexp.QuoteMeta(from)+`($|[^A-Za-z0-9_])`).ReplaceAllString(out, "${1}"+to+"${2}")
+			out = word(from).ReplaceAllString(out, "${1}"+to+"${2}")
 		}
 		return out
 	}
-	fromLit := func(cl *ast.CompositeLit) map[string]string {
-		vals := map[string]string{}
-		for _, e := range cl.Elts {
-			kv, ok := e.(*ast.KeyValueExpr)
-			if !ok {
-				return nil
-			}
-			vals[types.ExprString(kv.Key)] = render(kv.Value)
-		}
-		return vals
-	}
-	var fromExpr func(e ast.Expr) (map[string]string, string)
-	fromExpr = func(e ast.Expr) (map[string]string, string) {
+	var fromExpr func(e ast.Expr) (*optVal, string)
+	fromExpr = func(e ast.Expr) (*optVal, string) {
 		switch t := ast.Unparen(e).(type) {
 		case *ast.CompositeLit:
-			if v := fromLit(t); v != nil {
+			vals := map[string]string{}
+			for _, el := range t.Elts {
+				kv, ok := el.(*ast.KeyValueExpr)
+				if !ok {
+					return nil, "unkeyed composite literal"
+				}
+				vals[types.ExprString(kv.Key)] = render(kv.Value)
+			}
+			return &optVal{isStruct: true, fields: vals}, ""
+		case *ast.Ident:
+			if v, ok := locals[t.Name]; ok {
 				return v, ""
 			}
-			return nil, "unkeyed composite literal"
 		case *ast.CallExpr:
-			f, ok := core.CalleeObj(info, t).(*types.Func)
-			if !ok {
-				return nil, "call of " + types.ExprString(t.Fun)
-			}
-			cf := fns[f.Name()]
-			if cf == nil || cf.Body == nil || cf.Recv != nil {
-				return nil, "call of " + f.Name() + " (not a function of this package)"
-			}
-			var names []string
-			for _, fl := range cf.Type.Params.List {
-				for _, n := range fl.Names {
-					names = append(names, n.Name)
+			if f, ok := core.CalleeObj(info, t).(*types.Func); ok {
+				if cf := fns[f.Name()]; cf != nil && cf.Body != nil && cf.Recv == nil && f.Pkg() != nil && info.Defs[cf.Name] == types.Object(f) {
+					if st, isStruct := f.Type().(*types.Signature).Results().At(0).Type().Underlying().(*types.Struct); isStruct && st != nil {
+						var names []string
+						for _, fl := range cf.Type.Params.List {
+							for _, n := range fl.Names {
+								names = append(names, n.Name)
+							}
+						}
+						if len(names) != len(t.Args) {
+							return nil, "helper arity"
+						}
+						s2 := map[string]string{}
+						for i, n := range names {
+							s2[n] = render(t.Args[i])
+						}
+						return evalOptsValue(info, fns, cf, s2, depth+1)
+					}
 				}
 			}
-			if len(names) != len(t.Args) {
-				return nil, "helper arity"
-			}
-			s2 := map[string]string{}
-			for i, n := range names {
-				s2[n] = render(t.Args[i])
-			}
-			return evalOptsFunc(info, fns, cf, s2, depth+1)
 		}
-		return nil, "expression " + types.ExprString(e)
+		// anything else is a scalar expression over the parameters
+		return &optVal{scalar: render(e)}, ""
 	}
-	var cur map[string]string
-	var curObj types.Object
 	for _, st := range fd.Body.List {
 		switch t := st.(type) {
 		case *ast.ReturnStmt:
 			if len(t.Results) != 1 {
 				return nil, "return arity"
 			}
-			if id, ok := ast.Unparen(t.Results[0]).(*ast.Ident); ok && cur != nil && info.ObjectOf(id) == curObj {
-				return cur, ""
-			}
 			return fromExpr(t.Results[0])
+		case *ast.DeclStmt:
+			gd, ok := t.Decl.(*ast.GenDecl)
+			if !ok || gd.Tok != token.VAR {
+				return nil, "declaration statement"
+			}
+			for _, sp := range gd.Specs {
+				vs := sp.(*ast.ValueSpec)
+				for i, n := range vs.Names {
+					if i < len(vs.Values) {
+						v, why := fromExpr(vs.Values[i])
+						if v == nil {
+							return nil, why
+						}
+						locals[n.Name] = v
+						continue
+					}
+					if _, isStruct := info.TypeOf(n).Underlying().(*types.Struct); !isStruct {
+						return nil, "zero-valued scalar local " + n.Name
+					}
+					locals[n.Name] = &optVal{isStruct: true, fields: map[string]string{}}
+				}
+			}
 		case *ast.AssignStmt:
 			if len(t.Lhs) != 1 || len(t.Rhs) != 1 {
 				return nil, "multi-assignment"
 			}
-			if id, ok := t.Lhs[0].(*ast.Ident); ok && t.Tok == token.DEFINE && cur == nil {
+			if id, ok := t.Lhs[0].(*ast.Ident); ok && (t.Tok == token.DEFINE || t.Tok == token.ASSIGN) {
 				v, why := fromExpr(t.Rhs[0])
 				if v == nil {
 					return nil, why
 				}
-				cur, curObj = v, info.ObjectOf(id)
+				if v.isStruct {
+					cp := &optVal{isStruct: true, fields: map[string]string{}}
+					for k, x := range v.fields {
+						cp.fields[k] = x
+					}
+					v = cp
+				}
+				locals[id.Name] = v
 				continue
 			}
-			if sel, ok := t.Lhs[0].(*ast.SelectorExpr); ok && t.Tok == token.ASSIGN && cur != nil {
-				if id, ok := sel.X.(*ast.Ident); ok && info.ObjectOf(id) == curObj {
-					cur[sel.Sel.Name] = render(t.Rhs[0])
-					continue
+			if sel, ok := t.Lhs[0].(*ast.SelectorExpr); ok && t.Tok == token.ASSIGN {
+				if id, ok := sel.X.(*ast.Ident); ok {
+					if v := locals[id.Name]; v != nil && v.isStruct {
+						v.fields[sel.Sel.Name] = render(t.Rhs[0])
+						continue
+					}
 				}
 			}
 			return nil, "statement " + types.ExprString(t.Lhs[0]) + " " + t.Tok.String() + " ..."
-		case *ast.DeclStmt:
-			return nil, "declaration statement"
 		default:
 			return nil, fmt.Sprintf("statement %T", st)
 		}
